@@ -105,8 +105,26 @@ def rfail(run, p, cd):
                    '%s is reported under %s%s' % (x.func.attr, sorted(used), '' if not miss else '; %s does not flow into the returned failure count' % miss),
                    fn=cd, node=x)
     # the failure expression itself
-    ok = isinstance(fl, ast.IfExp) and norm(fl).replace(' ', '') in ('0ifsameelse1', '1ifnotsameelse0')
-    run.ob('C05-RFAIL', '%s::%s::return' % (cd.rel, cd.short), ok, 'returns failures=%s' % norm(fl), fn=cd, node=rets[0], nontrivial=False)
+    # two-row table: 0 failures exactly when the flag that every reported difference clears is still set
+    from ..pyeval import Interp, Unsupported
+    e = fl
+    seen = 0
+    while isinstance(e, ast.Name) and seen < 4:
+        defs = [s for s in ast.walk(cd.node) if isinstance(s, ast.Assign) and any(isinstance(t, ast.Name) and t.id == e.id for t in s.targets)]
+        if len(defs) != 1:
+            break
+        e = defs[0].value
+        seen += 1
+    flags = sorted(n0 for n0 in names_in(e) if n0 in R and '.' not in n0)
+    I = Interp(p)
+    ok = False
+    if len(flags) == 1:
+        try:
+            ok = I.expr(e, {flags[0]: True}, cd.mod) == 0 and bool(I.expr(e, {flags[0]: False}, cd.mod))
+        except Unsupported as ex:
+            raise AnalysisError('check_dataframe: returned failure count %s not evaluable: %s' % (norm(e), ex))
+    run.ob('C05-RFAIL', '%s::%s::return' % (cd.rel, cd.short), ok,
+           'returns failures=%s: 0 when %s is true, non-zero when it is false' % (norm(e), flags[0] if flags else '?'), fn=cd, node=rets[0], nontrivial=False)
     run.floor('C05-RFAIL', n, 6)
 
 
@@ -121,7 +139,10 @@ def state(run, p, pc):
             continue
         for s in p.own_nodes(f):
             if isinstance(s, ast.Assign):
+                flat = []
                 for t in s.targets:
+                    flat += list(t.elts) if isinstance(t, (ast.Tuple, ast.List)) else [t]
+                for t in flat:
                     if isinstance(t, ast.Attribute) and isinstance(t.value, ast.Name) and t.value.id == 'self':
                         n += 1
                         rhs = names_in(s.value)
